@@ -12,7 +12,10 @@ RULE = ("every mark graph MARKS(n) n<=3, a seeded sample of MARKS(4) (quick) / M
         "the object is built for a neighbour graph (one pair re-marked, or one edge re-wired keeping node and edge counts), all "
         "queries are run and discarded, the SAME object is edited in place into g (read back and checked), then judged; a quarter of "
         "these are judged on obj.copy(). Falsy labels \"\", (), frozenset() for node 0 (as x and as y) on a third of MARKS(3) and "
-        "an eighth of the chain graphs. Verdict per returned set S: "
+        "an eighth of the chain graphs. Numeric argument max_path_length (beyond the quantifier): on a share of the queries of a "
+        "share of the cases 1000 / |V|^2+1 as Python int, numpy.int64, int32, intp must give the result of None for all four "
+        "functions; 0,1,2 must give the same pds as int and as numpy.int64, between the neighbours of x and the unbounded result, "
+        "and exactly the neighbours for 0. Verdict per returned set S: "
         "definition over simple paths not within S => violation; S not within the walk definition (= proved model) => violation; "
         "S strictly larger than the simple-path definition but inside the walk definition => known finding. "
         "distinct by (canonical graph, repeat seed, falsy label); non-trivial = some pds set contains a node that is not adjacent to x")
@@ -21,7 +24,8 @@ TRUSTED = ["MixedEdgeGraph.neighbors / has_edge / to_undirected and nx.has_path 
            "(the block of the edge x-y is computed on the model side by its definition: nodes on a simple cycle through x-y)",
            "time-series graphs are built with stationary=False and the full replicated edge set, then read back and compared with "
            "the abstract graph before any query"]
-ASSUMPTIONS = ["default edge-type names", "int labels (label families: C15)", "max_path_length=None", "x != y"]
+ASSUMPTIONS = ["default edge-type names", "int labels (label families: C15)",
+               "max_path_length=None for every judged set (other values: only the argument-type probes described in RULE)", "x != y"]
 SPOT_N = 10
 LEVEL_TEXT = ("Unbounded Coq theorems (Props/C17.v, statements in C17/Spec.v) about the executable model C17/Model.v (edge-state "
               "search with the repaired enqueue (this_node, next_node)): pds_model_is_walk and pds_with_y (the returned set is exactly "
@@ -118,8 +122,11 @@ def _rep(c, rng):
 def gen_cases(tier, rng):
     for n in (1, 2, 3):
         qs = all_queries(range(n))
-        for g in gr.enum_marks(n):
-            yield {"kind": "marks%d" % n, "g": g, "qs": qs}
+        for i, g in enumerate(gr.enum_marks(n)):
+            c = {"kind": "marks%d" % n, "g": g, "qs": qs}
+            if n < 3 or i % 2 == 0:
+                c["mpl"] = 2      # numeric-argument probes (max_path_length in every integer type) on every 2nd query
+            yield c
     # REPEAT stream: the object is built for a neighbour graph (one pair re-marked, or one edge re-wired keeping the node and edge
     # counts), queried, edited in place into g, then judged (c16_util.warm_object); every graph n<=3 that has an edge
     for n in (2, 3):
@@ -138,6 +145,8 @@ def gen_cases(tier, rng):
             p = rng.choice([0.3, 0.5, 0.7, 0.9])
             g = gr.from_kinds(n, [rng.choice(gr.MARK_KINDS[1:]) if rng.random() < p else "none" for _ in gr.pairs(n)])
             c = {"kind": "marks%ds" % n, "g": g, "qs": qs}
+            if i % 5 == 1:
+                c["mpl"] = 3
             yield _rep(c, rng) if i % 3 == 0 else c
     for i in range(400 if tier == "quick" else 4000):
         n = rng.randint(5, 8)
@@ -148,11 +157,15 @@ def gen_cases(tier, rng):
         c = {"kind": "chain", "g": g, "qs": qs}
         if i % 8 == 1:
             c["falsy"] = i % 3
+        if i % 3 == 0:
+            c["mpl"] = 5
         yield _rep(c, rng) if i % 4 == 0 else c
     for i in range(200 if tier == "quick" else 2500):
         L = rng.choice([1, 2])
         g, lags = ts_graph(rng, 2, L)
         c = {"kind": "ts", "g": g, "qs": all_queries(g["V"]), "ts": {"nv": 2, "L": L, "lags": lags}}
+        if i % 3 == 0:
+            c["mpl"] = 7
         yield _rep(c, rng) if i % 4 == 0 else c
 
 
@@ -196,39 +209,93 @@ def to_tspag(g, case):
     return P, lab, inv
 
 
-def run_queries(case, P, lab, inv):
+def _seeds(g, x, yo):
+    """neighbours of x except y; nothing when y is given and not connected to x (what max_path_length=0 must return)"""
+    adj = {v: set() for v in g["V"]}
+    for k in "DBUC":
+        for a, b in g[k]:
+            adj[a].add(b)
+            adj[b].add(a)
+    if yo:
+        seen, todo = {x}, [x]
+        while todo:
+            for w in adj[todo.pop()]:
+                if w not in seen:
+                    seen.add(w)
+                    todo.append(w)
+        if yo[0] not in seen:
+            return []
+    return sorted(v for v in adj[x] if not yo or v != yo[0])
+
+
+def probe_max_path_length(case, P, lab, call, fs, x, yo, base):
+    """numeric argument max_path_length (beyond the quantifier, which fixes None): effectively unbounded values in every integer
+    type must give the result of None; small values must give the same result as Python int and as numpy.int64, between the
+    neighbours of x and the unbounded result, and exactly the neighbours for 0.  Returns a list of problem strings."""
+    import numpy as np
+    n = len(case["g"]["V"])
+    args = (lab(x),) + ((lab(yo[0]),) if yo else ())
+    bad = []
+    for nm, f in fs.items():
+        for tag, v in (("int1000", 1000), ("int64", np.int64(1000)), ("int32", np.int32(1000)), ("intp", np.intp(n * n + 1)),
+                       ("intn2", n * n + 1)):
+            r = call(f, *args, max_path_length=v)
+            if r != base[nm]:
+                bad.append("%s(max_path_length=%s) differs from max_path_length=None" % (nm, tag))
+    seeds = _seeds(case["g"], x, yo)
+    for k in (0, 1, 2):
+        r_int = call(fs["pds"], *args, max_path_length=k)
+        r_np = call(fs["pds"], *args, max_path_length=np.int64(k))
+        if r_int != r_np:
+            bad.append("pds(max_path_length=%d): int and numpy.int64 differ" % k)
+        if isinstance(r_int, str) or isinstance(base["pds"], str):
+            bad.append("pds(max_path_length=%d) raised" % k)
+        elif not (set(seeds) <= set(r_int) <= set(base["pds"])):
+            bad.append("pds(max_path_length=%d) not between the neighbours of x and the unbounded result" % k)
+        elif k == 0 and r_int != seeds:
+            bad.append("pds(max_path_length=0) is not the set of neighbours of x")
+    return bad
+
+
+def run_queries(case, P, lab, inv, judged=True):
     from pywhy_graphs.algorithms import pds, pds_path, pds_t, pds_t_path
     ts = bool(case.get("ts"))
 
-    def call(f, *a):
+    def call(f, *a, **kw):
         try:
-            return sorted(inv(v) for v in f(P, *a))
+            return sorted(inv(v) for v in f(P, *a, **kw))
         except Exception as e:  # noqa
             return "exc:" + type(e).__name__
-    out = []
-    for x, yo in case["qs"]:
+    out, bad = [], []
+    stride = case.get("mpl") if judged else None
+    for i, (x, yo) in enumerate(case["qs"]):
         if not yo:
-            out.append({"pds": call(pds, lab(x))})
+            r = {"pds": call(pds, lab(x))}
+            fs = {"pds": pds}
         else:
             y = yo[0]
             r = {"pds": call(pds, lab(x), lab(y)), "pds_path": call(pds_path, lab(x), lab(y))}
+            fs = {"pds": pds, "pds_path": pds_path}
             if ts:
                 r["pds_t"] = call(pds_t, lab(x), lab(y))
                 r["pds_t_path"] = call(pds_t_path, lab(x), lab(y))
-            out.append(r)
-    return out
+                fs.update(pds_t=pds_t, pds_t_path=pds_t_path)
+        out.append(r)
+        if stride and i % stride == 0:
+            bad.extend("q%d: %s" % (i, b) for b in probe_max_path_length(case, P, lab, call, fs, x, yo, r))
+    return out, bad
 
 
 def run_impl(case):
     build = to_tspag if case.get("ts") else cu.build_pag
-    P, lab, inv = cu.warm_object(case, build, lambda P, lab, inv: run_queries(case, P, lab, inv))
+    P, lab, inv = cu.warm_object(case, build, lambda P, lab, inv: run_queries(case, P, lab, inv, judged=False))
     before = gr.snapshot(P)
-    out = run_queries(case, P, lab, inv)
-    return {"res": out, "mutated": gr.snapshot(P) != before}
+    out, bad = run_queries(case, P, lab, inv)
+    return {"res": out, "mpl": bad[:5], "mutated": gr.snapshot(P) != before}
 
 
-_ORDER = ["exception", "model-vs-oracle", "missing-nodes", "extra-nodes-outside-walk-definition", "argument-mutated",
-          "over-approximation"]
+_ORDER = ["exception", "model-vs-oracle", "max_path_length-argument", "missing-nodes", "extra-nodes-outside-walk-definition",
+          "argument-mutated", "over-approximation"]
 
 
 def verdicts(case, impl, model):
@@ -250,6 +317,8 @@ def verdicts(case, impl, model):
                 vs.add("over-approximation")
     if impl["mutated"]:
         vs.add("argument-mutated")
+    if impl.get("mpl"):
+        vs.add("max_path_length-argument")
     return vs
 
 
